@@ -636,6 +636,43 @@ def t04_fmask(run, fx):
         run.ok(rule, "%d flags, %d rows, one row per flag, tags spelled as the flags" % (len(flags), len(rows)))
 
 
+def t04_frac(run, fx):
+    rule = "T04-FRAC"
+    run.rule(rule, "fractions (`frac`, numr/dnom windows): gsub_apply_lookups_impl returns the length of the window after substitution (ligatures and "
+                   "multiple substitutions change it), and the next window starts where the previous one ended. In gsub_apply_lookups_frac the length "
+                   "returned by an application may be dropped only when no further application can follow it (the last window, then `break`): every "
+                   "other result flows into the position the next window starts from")
+    import guards
+    b = fx.body("gsub::gsub_apply_lookups_frac")
+    if b is None:
+        return run.anchor_missing(rule, "gsub::gsub_apply_lookups_frac")
+    calls = [(bi, t) for bi, t in b.calls() if callee_is(t, "gsub::gsub_apply_lookups_impl")]
+    if len(calls) < 2:
+        return run.anchor_missing(rule, "two applications of gsub_apply_lookups_impl in gsub_apply_lookups_frac")
+    blocks = {bi for bi, _ in calls}
+    for bi, t in calls:
+        dest = t["dest"]["l"]
+        def really_used(v, depth=0):
+            # a move into a temporary that is itself never read is how an expression statement discards its value
+            for ubi, kind, item in guards.uses_of_local(b, v):
+                if kind == "stmt" and item["rv"]["k"] == "use" and not item["p"]["p"] and depth < 6:
+                    if really_used(item["p"]["l"], depth + 1):
+                        return True
+                    continue
+                return True
+            return False
+        used = any(really_used(v) for v in guards.unwrapped_value_locals(b, dest))
+        after = set()
+        for s_ in b.succs(bi):
+            after |= b.reach_from(s_)
+        follows = bool((blocks - {bi}) & after) or bi in after
+        if used or not follows:
+            run.ok(rule, "application at %s: length %s" % (b.loc(t), "used" if used else "dropped, nothing follows"))
+        else:
+            run.fail(rule, "frac:length-dropped", "gsub_apply_lookups_frac drops the length returned by an application of gsub_apply_lookups_impl although another "
+                     "application follows: after a ligature or a multiple substitution in that window the next window starts at a stale position", b.loc(t))
+
+
 def t04_fvr(run, fx):
     import reach
     rule = "T04-FVR"
@@ -938,6 +975,8 @@ def check(run, fx, tier, floors=True):
     if floors or fx.body("layout::ConditionTable::matches") is not None:
         t04_cond(run, fx)
         t04_fvr(run, fx)
+    if floors or fx.body("gsub::gsub_apply_lookups_frac") is not None:
+        t04_frac(run, fx)
     import speclayout
     speclayout.rule_layouts(run, fx, "T04-LAYOUT", ["layout"], floors)
     speclayout.rule_records(run, fx, "T04-REC", ['layout'], floors)
